@@ -81,7 +81,9 @@ def ensure_coq(tooldir, gen_writer=None):
             if os.path.exists(dst):
                 shutil.rmtree(dst)
             for e in os.listdir(tooldir):
-                if e.startswith("coq_") and e != os.path.basename(dst):
+                # older instantiations of the development: only those nobody can still be using (a check started before the
+                # sources changed may still be evaluating in its own copy)
+                if e.startswith("coq_") and e != os.path.basename(dst) and time.time() - os.path.getmtime(os.path.join(tooldir, e)) > 3 * 3600:
                     shutil.rmtree(os.path.join(tooldir, e), ignore_errors=True)
             subprocess.run(["cp", "-a", COQSRC, dst], check=True)
             if gen_writer is not None:
